@@ -33,6 +33,7 @@ type Case struct {
 	Schedule []simrt.Decision     `json:"schedule,omitempty"` // explicit decision list (replay / minimised)
 	Extra    map[string]any       `json:"extra,omitempty"`
 	Prov     *ProvCase            `json:"prov,omitempty"` // class P: one step provider driven directly
+	Prep     *PrepCase            `json:"prep,omitempty"` // preparation-only case (C10, C16)
 }
 
 // ShapeKey is the coarse signature of the workload (distinctness measure of the evidence).
@@ -77,6 +78,10 @@ func (c *Case) Spec(journal bool) harness.Spec {
 	}
 	if c.Prov != nil {
 		sp.Body = c.Prov.Body
+		return sp
+	}
+	if c.Prep != nil {
+		sp.Body = c.Prep.body(c)
 		return sp
 	}
 	if len(sp.Clients) == 0 {
@@ -319,6 +324,11 @@ func (st *Stats) Add(c *Case, r *harness.Result) {
 			reached = true
 			break
 		}
+	}
+	if c.Prep != nil {
+		reached = true
+		nontrivial = true
+		ov = append(ov, c.Prep.Corruption, fmt.Sprint(c.Prep.Variants))
 	}
 	if c.Prov != nil {
 		reached = true
